@@ -83,4 +83,21 @@ theorem mask_rank (m : ℕ → Prop) [DecidablePred m] (n : ℕ) :
   · intro j j2 hjj hj2
     exact Nat.nth_lt_nth' hjj (hlt j2 hj2)
 
+/-- first occurrence of a key among the first n entries of a sequence, -1 for a key that does not occur (the cells of the training rows) -/
+theorem first_occurrence {K : Type} [DecidableEq K] (f : ℕ → K) (n : ℕ) :
+    ∃ first : K → ℤ, (∀ r, r < n → 0 ≤ first (f r) ∧ first (f r) ≤ r) ∧
+      (∀ k, 0 ≤ first k → ∃ r : ℕ, (r : ℤ) = first k ∧ r < n ∧ f r = k) := by
+  classical
+  refine ⟨fun k => if h : ∃ r, r < n ∧ f r = k then (Nat.find h : ℤ) else -1, ?_, ?_⟩
+  · intro r hr
+    have h : ∃ r', r' < n ∧ f r' = f r := ⟨r, hr, rfl⟩
+    simp only [h, dite_true]
+    exact ⟨Int.natCast_nonneg _, by exact_mod_cast Nat.find_min' h ⟨hr, rfl⟩⟩
+  · intro k hk
+    by_cases h : ∃ r, r < n ∧ f r = k
+    · simp only [h, dite_true] at hk ⊢
+      exact ⟨Nat.find h, rfl, (Nat.find_spec h).1, (Nat.find_spec h).2⟩
+    · simp only [h, dite_false] at hk
+      omega
+
 end Pyvc
